@@ -1,6 +1,115 @@
-From Coq Require Import ZArith List String.
-From Cspuz Require Import Lib.PyErr Core.Expr Backend.Sugar Backend.SugarReply.
+(* C03 -- Sugar-family backends: emitted CSP text and parsed replies are faithful.
+   Model: Backend/Sugar.v (mirror of cspuz/backend/sugar_like.py, operator table
+   generated into Gen/SugarOps.v); reference side: Backend/SugarReply.v (Sugar
+   syntax + CspuzSugarInterface.java); vocabulary: Backend/SugarSpec.v. *)
+From Coq Require Import ZArith List Bool String Ascii.
+From Cspuz Require Import Lib.PyErr Core.Expr Core.Program Backend.SugarText Backend.SugarTextProofs
+  Gen.SugarOps Backend.Sugar Backend.SugarReply Backend.SugarLexProofs Backend.SugarSpec
+  Backend.SugarPrintProofs Backend.SugarDescProofs Backend.SugarReplyProofs Backend.SugarMain.
+Import ListNotations.
 Open Scope string_scope.
-Theorem description_kind_independent_tmp : forall k vs cs, description_k k vs cs None = description vs cs None.
-Proof. intros; reflexivity. Qed.
-Print Assumptions description_kind_independent_tmp.
+
+(* T tie: every entry of OP_TO_OPNAME is one printable atom, not a declaration
+   keyword, and Sugar's reading of that name is the cspuz operator *)
+Theorem opname_agrees : forall gsem o n, opname o = Some n ->
+  good_name n /\
+  forall vs, arity_ok o (List.length vs) = true -> sugar_apply gsem n vs = eval_node gsem o vs.
+Proof. exact SugarPrintProofs.opname_agrees. Qed.
+Print Assumptions opname_agrees.
+
+Theorem opname_total : forall o, o <> VAR -> o <> BOOL_CONSTANT -> o <> INT_CONSTANT -> opname o <> None.
+Proof. exact SugarPrintProofs.opname_total. Qed.
+Print Assumptions opname_total.
+
+(* string level: the text of every well-typed tree is read back by the reference
+   parser as one expression whose Sugar meaning is eval, for every gsem *)
+Theorem print_denotes : forall gsem e, wts true e = true ->
+  exists s x, print_expr e = Ok s /\ sx_parse s = Some x /\
+    forall en, sugar_sem gsem (name_env en) x = eval gsem en e.
+Proof. exact SugarMain.print_denotes. Qed.
+Print Assumptions print_denotes.
+
+Theorem print_denotes_operand : forall gsem e, okarg e = true ->
+  exists s x, print_expr e = Ok s /\ sx_parse s = Some x /\
+    forall en, sugar_sem gsem (name_env en) x = eval gsem en e.
+Proof. exact SugarMain.print_denotes_operand. Qed.
+Print Assumptions print_denotes_operand.
+
+(* decls_exact + keys_exact + constraints: the description, read the way
+   loadProblem reads it, declares exactly the variables (names, kinds, domains,
+   order), names exactly the registered keys (deduction mode only), and its
+   constraints mean what the posted trees mean *)
+Theorem description_faithful : forall gsem vs cs mode text,
+  Forall (fun c => wts true c = true) cs ->
+  description vs cs mode = Ok text ->
+  exists jp, java_load text = Some jp /\
+    sugar_decls (j_problem jp) = map (fun v => Some (sdecl_of v)) vs /\
+    j_ints jp = int_names vs /\ j_bools jp = bool_names vs /\
+    j_keys jp = option_map (fun ks => key_list (names_of_keys vs ks)) mode /\
+    forall en, map (sugar_sem gsem (name_env en)) (sugar_constraints (j_problem jp)) = map (eval gsem en) cs.
+Proof. exact SugarDescProofs.description_faithful. Qed.
+Print Assumptions description_faithful.
+
+Theorem description_total : forall vs cs mode,
+  Forall (fun c => wts true c = true) cs ->
+  (forall ks, mode = Some ks -> (List.length vs <= List.length ks)%nat) ->
+  exists text, description vs cs mode = Ok text.
+Proof. exact (SugarDescProofs.description_total no_graph). Qed.
+Print Assumptions description_total.
+
+Theorem description_ascii : forall vs cs mode text,
+  Forall (fun c => wts true c = true) cs -> description vs cs mode = Ok text ->
+  all_chars (fun c => Nat.ltb (nat_of_ascii c) 128) text = true.
+Proof. exact (SugarDescProofs.description_ascii no_graph). Qed.
+Print Assumptions description_ascii.
+
+(* text -> loadProblem -> run() -> Python parser: answer-finder mode *)
+Theorem answer_reply_reflected : forall (gsem : op -> list (option value) -> option bool) vs cs text,
+  NoDup (map var_id vs) -> Forall (fun c => wts true c = true) cs ->
+  description vs cs None = Ok text ->
+  exists jp, java_load text = Some jp /\ j_keys jp = None /\
+    forall rho nr, typed_on vs rho ->
+      exists reply, java_reply jp (Some (rho, nr)) = Some reply /\
+        parse_answer vs reply = Ok (true, map (fun v => rho (var_name v)) vs).
+Proof. exact SugarMain.answer_reply_reflected. Qed.
+Print Assumptions answer_reply_reflected.
+
+(* deduction mode: exactly the registered keys that were not refuted get their value *)
+Theorem deduction_reply_reflected : forall (gsem : op -> list (option value) -> option bool) vs cs ks text,
+  NoDup (map var_id vs) -> Forall (fun c => wts true c = true) cs -> List.length ks = List.length vs ->
+  description vs cs (Some ks) = Ok text ->
+  exists jp, java_load text = Some jp /\
+    forall rho nr, typed_on vs rho ->
+      exists reply, java_reply jp (Some (rho, nr)) = Some reply /\
+        parse_deduction vs reply =
+        Ok (true, map (fun p => if snd p && nr (var_name (fst p)) then rho (var_name (fst p)) else None)
+                      (combine vs ks)).
+Proof. exact SugarMain.deduction_reply_reflected. Qed.
+Print Assumptions deduction_reply_reflected.
+
+Theorem unsat_replies : forall (gsem : op -> list (option value) -> option bool) vs cs mode text,
+  Forall (fun c => wts true c = true) cs -> description vs cs mode = Ok text ->
+  exists jp reply, java_load text = Some jp /\ java_reply jp None = Some reply /\
+    match mode with
+    | None => parse_answer vs reply = Ok (false, no_sol vs)
+    | Some _ => parse_deduction vs reply = Ok (false, no_sol vs)
+    end.
+Proof. exact SugarMain.unsat_replies. Qed.
+Print Assumptions unsat_replies.
+
+Theorem description_kind_independent : forall k vs cs mode,
+  (native_deduction k = true \/ mode = None) -> description_k k vs cs mode = description vs cs mode.
+Proof. exact SugarMain.description_kind_independent. Qed.
+Print Assumptions description_kind_independent.
+
+Theorem sugar_falls_back : forall vs cs ks text,
+  description vs cs (Some ks) = Ok text -> description_k K_sugar vs cs (Some ks) = Err NotImplementedErr.
+Proof. exact SugarMain.sugar_falls_back. Qed.
+Print Assumptions sugar_falls_back.
+
+(* why wts asks Op.SUB for two operands: a one-operand SUB prints as Sugar's negation *)
+Theorem sub1_misprinted : forall gsem en,
+  exists s x, print_expr (INode SUB [PyInt 1]) = Ok s /\ sx_parse s = Some x /\
+    sugar_sem gsem (name_env en) x = Some (VI (-1)) /\ eval gsem en (INode SUB [PyInt 1]) = Some (VI 1).
+Proof. exact SugarPrintProofs.sub1_misprinted. Qed.
+Print Assumptions sub1_misprinted.
